@@ -1100,7 +1100,7 @@ pub fn run_check(prop: &'static Prop, tier: Tier, seed: u64) -> i32 {
                 if seqno > 0 {
                     children[i].skip.push(seqno);
                 }
-                if children[i].crashes >= 4 || seqno == 0 {
+                if children[i].crashes >= 400 || seqno == 0 {
                     incomplete += 1;
                     finished.push(k);
                     children.swap_remove(i);
